@@ -34,6 +34,11 @@ func (g *gen) intsCase(fam string, op opcode.Opcode, ns ...*big.Int) *vcase {
 
 var edgeTargets = []*big.Int{maxI, new(big.Int).Add(maxI, bi(1)), minI, new(big.Int).Sub(minI, bi(1)), bi(0)}
 
+// results at the 2^256 edges: an implementation computing modulo 2^256 (uint256) wraps them to small
+// values that would pass a range check made afterwards
+var wrapTargets = []*big.Int{pow2(256), new(big.Int).Sub(pow2(256), bi(1)), new(big.Int).Neg(pow2(256)), new(big.Int).Add(pow2(256), maxI),
+	new(big.Int).Add(pow2(256), bi(5)), new(big.Int).Sub(bi(5), pow2(256)), pow2(257), pow2(320)}
+
 func (g *gen) delta() *big.Int { return bi(int64(g.r.Intn(3)) - 1) }
 
 // correlated builds operand tuples whose *result* sits on a boundary.
@@ -42,6 +47,17 @@ func (g *gen) correlated() *vcase {
 		var c *vcase
 		a := g.bigInt()
 		t := new(big.Int).Add(edgeTargets[g.r.Intn(len(edgeTargets))], g.delta())
+		wrap := g.r.Intn(6) == 0
+		if wrap {
+			t = new(big.Int).Add(wrapTargets[g.r.Intn(len(wrapTargets))], g.delta())
+			// sums/differences of that size need operands at the ends of the range
+			if g.r.Bool() {
+				a = new(big.Int).Sub(maxI, bi(int64(g.r.Intn(3))))
+			} else {
+				a = new(big.Int).Add(minI, bi(int64(g.r.Intn(3))))
+			}
+			o.Count("correlated:wrap-target")
+		}
 		switch g.r.Intn(19) {
 		case 16: // shared integer: x DUP op must not change the other copy
 			c = g.aliasInt()
@@ -54,6 +70,13 @@ func (g *gen) correlated() *vcase {
 		case 1: // a - b = t
 			c = g.intsCase("arith", opcode.SUB, a, new(big.Int).Sub(a, t))
 		case 2: // a * b ≈ t
+			if wrap { // factors of about equal size: a = ±2^k + d, 2 <= k <= 254
+				a = pow2(uint(g.r.Range(2, 254)))
+				if g.r.Bool() {
+					a.Neg(a)
+				}
+				a.Add(a, g.delta())
+			}
 			if a.Sign() == 0 {
 				continue
 			}
